@@ -86,13 +86,20 @@ def rule_H4(ctx):
         name = e['name']
         sf, gf = m.func_by_dotted(e['set_fn']), m.func_by_dotted(e['get_fn'])
         le = name.endswith('le')
+        sf, bind = G.through_delegate(m, sf)       # setters merged into a shared helper: signedness arrives as an argument
         calls = [x for x in own_walk(sf.node) if isinstance(x, ast.Call) and isinstance(x.func, ast.Attribute) and x.func.attr in ('int2bitstore', 'intle2bitstore')]
         if len(calls) != 1:
             raise AnalysisError(f'{sf.key}: integer encoder call not recognised')
         c = calls[0]
-        signed = fold(c.args[2])
+        sarg = c.args[2]
+        if isinstance(sarg, ast.Name) and sarg.id in bind:
+            sarg = bind[sarg.id]
+        signed = fold(sarg)
         want_enc = 'intle2bitstore' if le else 'int2bitstore'
-        if c.func.attr != want_enc or signed is not e['is_signed'] or ast.unparse(c.args[1]) != 'length':
+        larg = c.args[1]
+        if isinstance(larg, ast.Name) and larg.id in bind and isinstance(bind[larg.id], ast.Name):
+            larg = ast.Name(id='length') if bind[larg.id].id == 'length' else larg
+        if c.func.attr != want_enc or signed is not e['is_signed'] or ast.unparse(larg) != 'length':
             r.fail(sf.key, c, f"'{name}' must be encoded by {want_enc}(value, length, {e['is_signed']})", loc=sf.loc(c))
         else:
             r.ok(c, {'instance': f"{name} setter", 'encoder': c.func.attr, 'signed': signed})
